@@ -105,6 +105,7 @@ func init() {
 			"GJS.Props.C15.kind_minimal_unsigned", "GJS.Props.C15.kind_minimal_signed", "GJS.Props.C15.same_accepts_Z",
 			"GJS.Props.C15.accOn_iff_spec", "GJS.Props.C15.intAccepts_on", "GJS.Props.C15.intAccepts_off", "GJS.Props.C15.same_accepts",
 			"GJS.Props.C15.type_fits", "GJS.Props.C15.KF_uint64_wider",
+			"GJS.Props.C15.keptSchema_off", "GJS.Props.C15.kept_bounds_cleared", "GJS.Props.C15.msRewriteNode_integer", "GJS.Props.C15.KF_rewritten_twin",
 		})
 		factsOf(c, "intLimits", "minIntBookkeeping", "nbComparisons")
 		oracleFails := 0
